@@ -26,27 +26,50 @@ type c18Cfg struct {
 	KLatUs    int    `json:"kernel_latency_us"`
 }
 
+func blockedState(st string) bool {
+	switch st {
+	case "chan send", "chan receive", "select", "sync.Mutex.Lock", "semacquire", "sync.RWMutex.Lock", "sync.RWMutex.RLock", "sync.Cond.Wait", "sync.WaitGroup.Wait":
+		return true
+	}
+	return false
+}
+
 // waitsFor maps a blocked go-upf goroutine to the goroutine role that must act
-// for it to continue ("" = not blocked on another go-upf goroutine).
+// for it to continue ("" = not blocked on another go-upf goroutine). The map
+// encodes who consumes which queue / holds which lock: report, timeout and
+// receive queues -> event loop; perio event queue -> perio server; netlink
+// replies -> mux goroutine; the report hand-over's lock -> its drain goroutine.
 func waitsFor(g gInfo) string {
+	if !blockedState(g.State) {
+		return ""
+	}
 	switch {
-	case strings.Contains(g.Inner, "go-nl.(*Client).Do") && g.State == "chan receive":
+	case strings.Contains(g.Inner, "go-nl.(*Client).Do"):
 		return "netlink-mux"
-	case strings.Contains(g.Inner, "NotifySessReport") && (g.State == "chan send" || g.State == "select"):
+	case strings.Contains(g.Inner, "report.(*AsyncHandler)") && (g.State == "sync.Mutex.Lock" || g.State == "semacquire"):
+		return "report-drain"
+	case strings.Contains(g.Inner, "pfcp.(*PfcpServer).NotifySessReport"), strings.Contains(g.Inner, "pfcp.(*PfcpServer).NotifyTransTimeout"):
 		return "event-loop"
-	case strings.Contains(g.Inner, "NotifyTransTimeout") && (g.State == "chan send" || g.State == "select"):
+	case strings.Contains(g.Inner, "NotifySessReport"):
+		// a producer inside some other hand-over stage in front of the server
 		return "event-loop"
-	case (strings.Contains(g.Inner, "PeriodReportTimer") || strings.Contains(g.Inner, "perio.(*Server).post") || strings.Contains(g.Inner, "perio.(*Server).Close")) &&
-		(g.State == "chan send" || g.State == "select"):
+	case strings.Contains(g.Inner, "PeriodReportTimer") || strings.Contains(g.Inner, "perio.(*Server).post") || strings.Contains(g.Inner, "perio.(*Server).Close"):
 		return "perio-server"
 	case strings.Contains(g.Inner, "newTicker") && g.State == "chan send":
 		return "perio-server"
-	case strings.Contains(g.Inner, "stopTicker") && g.State == "chan send":
+	case strings.Contains(g.Inner, "stopTicker"):
 		return "ticker"
-	case strings.Contains(g.Inner, "receiver") && (g.State == "chan send" || g.State == "select"):
+	case strings.Contains(g.Inner, "pfcp.(*PfcpServer).receiver"):
 		return "event-loop"
 	}
 	return ""
+}
+
+func c18Role(g gInfo) string {
+	if strings.Contains(g.Role, "AsyncHandler).drain") || strings.Contains(g.Own, "AsyncHandler).drain") {
+		return "report-drain"
+	}
+	return roleName(g.Role)
 }
 
 // findCycle looks for a wait-for cycle among the go-upf goroutines.
@@ -54,7 +77,7 @@ func findCycle(gs []gInfo) string {
 	edge := map[string]string{}
 	for _, g := range gs {
 		if w := waitsFor(g); w != "" {
-			edge[roleName(g.Role)] = w
+			edge[c18Role(g)] = w
 		}
 	}
 	for start := range edge {
@@ -87,6 +110,29 @@ func findCycle(gs []gInfo) string {
 		}
 	}
 	return ""
+}
+
+// quiescent returns the frame the event loop is blocked in when it is blocked (not in its own select) both now
+// and one second later, together with every other go-upf goroutine being blocked; "" otherwise.
+func quiescent(first []gInfo) string {
+	loopAt := func(gs []gInfo) string {
+		for _, g := range gs {
+			if roleName(g.Role) == "event-loop" && blockedState(g.State) && !strings.HasSuffix(g.Inner, "pfcp.(*PfcpServer).main") {
+				return g.State + "@" + g.Inner
+			}
+		}
+		return ""
+	}
+	a := loopAt(first)
+	if a == "" {
+		return ""
+	}
+	time.Sleep(time.Second)
+	second := upfGoroutines()
+	if loopAt(second) != a {
+		return ""
+	}
+	return a
 }
 
 func c18Run(res *vh.Result, ci int, c c18Cfg, rng *vh.Rng) {
@@ -183,6 +229,10 @@ func c18Run(res *vh.Result, ci int, c c18Cfg, rng *vh.Rng) {
 		atomic.StoreInt32(&stuck, 1)
 		if v.cycle != "" {
 			viol("wedge:"+v.cycle, fmt.Sprintf("no progress for 4 s while %s; wait-for cycle %s; queues: %s", what, v.cycle, v.q), v.gs)
+		} else if w2 := quiescent(v.gs); w2 != "" {
+			// W2: closed-system quiescence - a second dump one second later shows the event loop blocked at the same
+			// place, outside its select, while requests are retransmitted to it
+			viol("wedge:event-loop-blocked-in:"+w2, fmt.Sprintf("no progress for 5 s while %s; no wait-for cycle recognised, but the event loop stays blocked in %s; queues: %s", what, w2, v.q), v.gs)
 		} else {
 			res.Inconc(fmt.Sprintf("case %d: no progress while %s but no wait-for cycle among go-upf goroutines (%s)", ci, what, v.q))
 			abnormal = true
